@@ -12,11 +12,22 @@ use dvb_gse_rust::gse_encap::Encapsulator;
 // size sets (DESIGN §4)
 // ---------------------------------------------------------------------------------------
 
+/// windows of +-2 around the powers of two 2^7..2^16 (integer-width boundaries: u8, i16, u16 casts)
+pub fn pow2_windows() -> Vec<usize> {
+    let mut v = vec![];
+    for k in 7..=16u32 {
+        let c = 1usize << k;
+        v.extend(c - 2..=c + 2);
+    }
+    v
+}
+
 pub fn p_set() -> Vec<usize> {
     let mut v = range(0, 48);
     v.extend(range(4070, 4125));
     v.extend(range(65500, 65560));
     v.extend([5000, 8192, 70000]);
+    v.extend(pow2_windows());
     uniq(v)
 }
 
@@ -25,6 +36,7 @@ pub fn b_set() -> Vec<usize> {
     v.extend(range(4070, 4125));
     v.extend(range(65500, 65560));
     v.extend([5000, 8192, 70000]);
+    v.extend(pow2_windows());
     uniq(v)
 }
 
